@@ -252,7 +252,9 @@ def importRule (f : File) (i : ImportSpec) : Option ImportSpec :=
   else if isDirectiveImport f i then some { i with name := some "_" } else none
 
 /-- **imports_pruned**: a file left with only imports and no `//go:linkname` directive is emptied; otherwise an
-import survives iff it is blank or dot (or unnameable), or its name heads a remaining selector, or it is
+import survives iff it is blank or dot (or unnameable), or its name is the base of a remaining selector
+expression whose base does not resolve to a file-local object (`fileSels`: a local variable, parameter, receiver,
+field or same-file declaration spelled like the import does NOT keep it alive — input contract of the model), or it is
 `unsafe` / `embed` with a matching `//go:linkname ` / `//go:embed ` directive in the file (then renamed `_`).
 Hypotheses: import names of the file are pairwise distinct (Go requires it) and import specs are distinct
 nodes. The package name of an import is guessed as in build.go:463-469 (`importName`). -/
